@@ -139,6 +139,17 @@ rewrite (symm_qsm_pointwise sqrt Rltb (Cosine_laws scale sigma) (Rsorted_sle (k:
 by rewrite Cosine_evaluate qs_Cosine_closed_form.
 Qed.
 
+Theorem Celerite_symm_qsm_closed_form a b c d (x0 : R) (xs : seq R) :
+  Rlt 0 c -> d <> 0%Rr -> Rle 0 (a * c - b * d)%Rr -> Rle 0 (a * c + b * d)%Rr -> Rsorted x0 xs ->
+  forall i j : 'I_(size xs),
+  den (size xs) (to_symm_qsm rfops (k_Celerite a b c d) x0 xs) i j
+  = (let tau := Rabs (nth x0 xs i - nth x0 xs j) in exp (- c * tau) * (a * cos (d * tau) + b * sin (d * tau)))%Rr.
+Proof.
+move=> hc hd h1 h2 srt i j.
+rewrite (symm_qsm_pointwise sqrt Rltb (Celerite_laws a b c d) (Rsorted_sle (k:=k_Celerite a b c d) erefl srt)).
+by rewrite Celerite_evaluate qs_Celerite_closed_form.
+Qed.
+
 (* ---- SHO: the three regimes (the allclose band of the source is excluded, as in the property) ---- *)
 From Coq Require Import Lra.
 Definition k_SHO (w q sigma : R) : sskernel R R :=
@@ -170,6 +181,60 @@ Proof.
 move=> reg; apply: laws_of_lists => //.
 - by move=> t; exact: SHO_id.
 - by move=> t1 t2 t3; exact: SHO_semigroup.
+Qed.
+
+(* SHO end to end, regime by regime: the symmetric quasiseparable matrix built from the generated SHO tables on any sorted real
+   inputs has the documented closed-form entries *)
+Lemma two_state_evaluate (s w2 : R) (A : R -> R -> seq (seq R)) x y :
+  ss_evaluate rfops (MkSS 2 (fun _ => [:: s; 0%Rr]) [:: [:: 1%Rr; 0%Rr]; [:: 0%Rr; w2]] A Rltb) x y
+  = (s * s * (match Rlt_dec x y with left _ => nth 0%Rr (nth [::] (A x y) 0) 0 | right _ => nth 0%Rr (nth [::] (A y x) 0) 0 end))%Rr.
+Proof.
+rewrite /ss_evaluate /= /Rltb; case: (Rlt_dec x y) => _ /=.
+- move: (A x y) => T; rewrite /ss_bilin /ldot /lvecmat /sumn /vmk /vget /mget /=.
+  rewrite /GRing.add /GRing.mul /GRing.zero /=; ring.
+- move: (A y x) => T; rewrite /ss_bilin /ldot /lvecmat /sumn /vmk /vget /mget /=.
+  rewrite /GRing.add /GRing.mul /GRing.zero /=; ring.
+Qed.
+
+Theorem SHO_evaluate w q sigma x y :
+  ss_evaluate rfops (k_SHO w q sigma) x y = qs_SHO_evaluate w q sigma x y.
+Proof. by rewrite qs_SHO_evaluate_entry /mnth !nth_std; exact: two_state_evaluate. Qed.
+
+Theorem SHO_symm_qsm_closed_form w q sigma (x0 : R) (xs : seq R) : sho_regime w q -> Rsorted x0 xs ->
+  forall i j : 'I_(size xs),
+  den (size xs) (to_symm_qsm rfops (k_SHO w q sigma) x0 xs) i j = qs_SHO_evaluate w q sigma (nth x0 xs i) (nth x0 xs j).
+Proof.
+move=> reg srt i j.
+rewrite (symm_qsm_pointwise sqrt Rltb (SHO_laws sigma reg) (Rsorted_sle (k:=k_SHO w q sigma) erefl srt)).
+exact: SHO_evaluate.
+Qed.
+
+(* with the documented values, regime by regime *)
+Theorem SHO_symm_qsm_critical w sigma (x0 : R) (xs : seq R) : Rsorted x0 xs ->
+  forall i j : 'I_(size xs),
+  den (size xs) (to_symm_qsm rfops (k_SHO w (1 / 2)%Rr sigma) x0 xs) i j
+  = (let tau := Rabs (nth x0 xs i - nth x0 xs j) in sigma * sigma * (exp (- w * tau) * (1 + w * tau)))%Rr.
+Proof.
+move=> srt i j; rewrite SHO_symm_qsm_closed_form //; last by left.
+exact: qs_SHO_closed_form_critical.
+Qed.
+Theorem SHO_symm_qsm_under w q sigma (x0 : R) (xs : seq R) : Rle (1 / 2 + 1 / 1000)%Rr q -> w <> 0%Rr -> Rsorted x0 xs ->
+  forall i j : 'I_(size xs),
+  den (size xs) (to_symm_qsm rfops (k_SHO w q sigma) x0 xs) i j
+  = (let tau := Rabs (nth x0 xs i - nth x0 xs j) in let g := sqrt (4 * (q * q) - 1) in
+     sigma * sigma * (exp (- 1 / 2 * w * tau / q) * (cos (1 / 2 * g * w * tau / q) + sin (1 / 2 * g * w * tau / q) / g)))%Rr.
+Proof.
+move=> hq hw srt i j; rewrite SHO_symm_qsm_closed_form //; last by right; left.
+exact: qs_SHO_closed_form_under.
+Qed.
+Theorem SHO_symm_qsm_over w q sigma (x0 : R) (xs : seq R) : Rlt 0 q -> Rle q (1 / 2 - 1 / 1000)%Rr -> w <> 0%Rr -> Rsorted x0 xs ->
+  forall i j : 'I_(size xs),
+  den (size xs) (to_symm_qsm rfops (k_SHO w q sigma) x0 xs) i j
+  = (let tau := Rabs (nth x0 xs i - nth x0 xs j) in let g := sqrt (1 - 4 * (q * q)) in
+     sigma * sigma * (exp (- 1 / 2 * w * tau / q) * (cosh (1 / 2 * g * w * tau / q) + sinh (1 / 2 * g * w * tau / q) / g)))%Rr.
+Proof.
+move=> hq0 hq hw srt i j; rewrite SHO_symm_qsm_closed_form //; last by right; right.
+exact: qs_SHO_closed_form_over.
 Qed.
 
 (* ---- Kalman solver = quasiseparable solver for the built-in kernels: the state-space covariance the Kalman recursion
